@@ -5,7 +5,7 @@ the variable only if it was marked realized -- on all paths, same index; the
 'already realized' early-return tests the same index; the measure's realize
 hook reaches the update, and its getter reads the slot that was written."""
 from ..facts import extract, extract_split, units_matching, Program, AnalysisBroken, sx_find, sx_str
-from ..match import ev_write, is_call, call_args, call_obj, field_of, var_of, guard_blocks
+from ..match import ev_write, is_call, call_args, call_obj, field_of, var_of, guard_blocks, value_sets
 
 UNITS_QUICK = r"SimTKcommon/Simulation/src/Measure\.cpp$"
 UNITS_MORE = r"Simbody/src/(ExponentialSpringForce|CablePath|CableSpan|ContactTrackerSubsystem)\.cpp$"
@@ -94,11 +94,15 @@ EXTREME_CMP = {"Maximum": (">", False), "Minimum": ("<", False), "MaxAbs": (">",
 EXTREME_INIT = {"Minimum": "+inf", "Maximum": "-inf", "MinAbs": "+inf", "MaxAbs": "0"}
 
 
+def _is_operation(x):
+    return isinstance(x, list) and len(x) == 3 and x[0] == "mem" and x[2].endswith("::operation")
+
+
 def definitions(chk, P):
     chk.rule("DEFN", "the routing each built-in measure's definition prescribes (what is combined with what, never the values): Plus / Minus / Scale combine their own "
              "operands' values of the requested derivative order with +, -, *; Integrate's zdot is its DERIVATIVE measure, its initial z its INITIAL-CONDITION measure (or the "
              "default), its value the z it allocated and its k-th derivative the derivative measure's (k-1)-th, all at zIndex+i; Extreme compares (new, old) with the operator "
-             "of its operation (> / < on values or on absolute values) in a switch that covers every operation, starts from the neutral element of that operation and keeps the "
+             "of its operation (> / < on values or on absolute values), every operation having its own comparison, starts from the neutral element of that operation and keeps the "
              "new value exactly when it is a new extreme; Delay evaluates its buffer at time - delay")
     last = lambda n: str(n).split("::")[-1]
 
@@ -184,24 +188,22 @@ def definitions(chk, P):
     f = fn("Extreme", "isNewExtreme")
     if f:
         ps = [p_[0] for p_ in f.d["params"]]
-        sw = [(b, blk["term"]) for b, blk in f.blocks.items() if blk.get("term") and blk["term"]["k"] == "switch"]
-        chk.shape(len(sw) == 1, "DEFN", "Extreme:isNewExtreme:switch", f.loc, "one switch over the operation")
-        if len(sw) == 1:
-            have = sorted(last(c[1]) for c in sw[0][1]["cases"] if isinstance(c, list) and c[0] == "enum")
-            chk.judge(have == sorted(EXTREME_CMP), "DEFN", "Extreme:isNewExtreme:covers-every-operation", f.loc, "cases %s" % have)
-            for b, blk in sorted(f.blocks.items()):
-                c = blk.get("case")
-                if not (isinstance(c, list) and c[0] == "enum" and last(c[1]) in EXTREME_CMP):
-                    continue
-                op, absd = EXTREME_CMP[last(c[1])]
-                r = [e for e in blk["ev"] if e["k"] == "ret"]
-                ok = len(r) == 1 and isinstance(r[0]["val"], list) and r[0]["val"][0] in ("opc", "op") and r[0]["val"][1] == op
-                if ok:
-                    l, rr = r[0]["val"][2], r[0]["val"][3]
-                    isabs = lambda x: isinstance(x, list) and x[0] in ("dcall", "call") and last(x[1]) == "abs"
-                    ok = (isabs(l) and isabs(rr)) == absd and [y[1] for y in sx_find(l, lambda y: y[0] == "var")] == [ps[0]] and [y[1] for y in sx_find(rr, lambda y: y[0] == "var")] == [ps[1]]
-                chk.judge(ok, "DEFN", "Extreme:%s:new %s old%s" % (last(c[1]), op, " (absolute values)" if absd else ""), "%s:%d" % (f.file, r[0]["line"] if r else f.line),
-                          "returns %s" % (sx_str(r[0]["val"]) if r else None))
+        # the operation under which each block executes: value-set analysis of the `operation` member (a switch and an if / else-if chain are read alike)
+        vs = value_sets(f, _is_operation, set(EXTREME_CMP))
+        rets = [(b, e) for b, _, e in f.events(lambda e: e["k"] == "ret") if len(vs[b]) == 1]
+        have = sorted(next(iter(vs[b])) for b, e in rets)
+        chk.judge(have == sorted(EXTREME_CMP), "DEFN", "Extreme:isNewExtreme:covers-every-operation", f.loc, "operations with their own return: %s" % have)
+        for b, r0 in sorted(rets, key=lambda x: x[1]["line"]):
+            opn = next(iter(vs[b]))
+            op, absd = EXTREME_CMP[opn]
+            r = [r0]
+            ok = isinstance(r[0]["val"], list) and r[0]["val"][0] in ("opc", "op") and r[0]["val"][1] == op
+            if ok:
+                l, rr = r[0]["val"][2], r[0]["val"][3]
+                isabs = lambda x: isinstance(x, list) and x[0] in ("dcall", "call") and last(x[1]) == "abs"
+                ok = (isabs(l) and isabs(rr)) == absd and [y[1] for y in sx_find(l, lambda y: y[0] == "var")] == [ps[0]] and [y[1] for y in sx_find(rr, lambda y: y[0] == "var")] == [ps[1]]
+            chk.judge(ok, "DEFN", "Extreme:%s:new %s old%s" % (opn, op, " (absolute values)" if absd else ""), "%s:%d" % (f.file, r[0]["line"]),
+                      "returns %s" % sx_str(r[0]["val"]))
     f = fn("Extreme", "extremeOf")
     if f:
         r = [e for _, _, e in f.events(lambda e: e["k"] == "ret")]
@@ -214,16 +216,18 @@ def definitions(chk, P):
     f = fn("Extreme", "realizeMeasureTopologyVirtual")
     if f:
         got = {}
+        vs = value_sets(f, _is_operation, set(EXTREME_INIT))
         for b, blk in f.blocks.items():
-            c = blk.get("case")
-            if isinstance(c, list) and c[0] == "enum":
-                for e in blk["ev"]:
-                    if e["k"] == "assign" or (e["k"] == "call" and e.get("op") == "="):
-                        x = e.get("rhs") if e["k"] == "assign" else e["x"][3]
-                        neg = bool(sx_find(x, lambda y: (y[0] == "un" and y[1] == "-") or (y[0] == "opc" and y[1] == "-" and len(y) == 3)))
-                        inf = bool(sx_find(x, lambda y: y[0] == "gvar" and last(y[1]) == "Infinity"))
-                        zero = bool(sx_find(x, lambda y: y[0] == "lit" and y[1] in ("0", "0.0")))
-                        got[last(c[1])] = ("-inf" if neg else "+inf") if inf else ("0" if zero else sx_str(x))
+            if len(vs[b]) != 1:
+                continue
+            opn = next(iter(vs[b]))
+            for e in blk["ev"]:
+                if e["k"] == "assign" or (e["k"] == "call" and e.get("op") == "="):
+                    x = e.get("rhs") if e["k"] == "assign" else e["x"][3]
+                    neg = bool(sx_find(x, lambda y: (y[0] == "un" and y[1] == "-") or (y[0] == "opc" and y[1] == "-" and len(y) == 3)))
+                    inf = bool(sx_find(x, lambda y: y[0] == "gvar" and last(y[1]) == "Infinity"))
+                    zero = bool(sx_find(x, lambda y: y[0] == "lit" and y[1] in ("0", "0.0")))
+                    got[opn] = ("-inf" if neg else "+inf") if inf else ("0" if zero else sx_str(x))
         chk.judge(got == EXTREME_INIT, "DEFN", "Extreme:initial-value-is-neutral-element", f.loc, "initial values %s (required %s)" % (got, EXTREME_INIT))
     # Delay
     f = fn("Delay", "calcCachedValueVirtual")
